@@ -96,6 +96,12 @@ def _tlc(args, cwd, env_extra=None, timeout=1800, xmx='6g', xss='1g', deque=Fals
     env['JAVA_TOOL_OPTIONS'] = jto
     if env_extra:
         env.update(env_extra)
+    if 'SKIPFILE' not in env:      # TraceKit reads it unconditionally: by default an empty list of clauses to skip
+        ensure_dirs()
+        empty = os.path.join(WORK, 'empty.skip.ndjson')
+        if not os.path.exists(empty):
+            open(empty, 'w').close()
+        env['SKIPFILE'] = empty
     cmd = ['java', '-XX:+UseParallelGC', f'-Xmx{xmx}', '-cp', JAVA_CP, 'tlc2.TLC'] + args
     t0 = time.time()
     try:
@@ -196,13 +202,38 @@ def _tla_unquote(s):
     return json.loads(s)
 
 
-def tlc_trace(module, trace_path, timeout=1800, name=None, xmx='6g', deque=True, cfg=None):
+def tlc_trace(module, trace_path, timeout=1800, name=None, xmx='6g', deque=True, cfg=None, own=None, skip=()):
     """Validate an ndjson trace with spec/<module>.tla (cfg defaults to <module>.cfg).
-    Returns dict(consumed,total,bad,stats). ToolError if TLC does not produce a TRACE_RESULT."""
+    Returns dict(consumed,total,bad,stats). ToolError if TLC does not produce a TRACE_RESULT.
+    own: predicate over clause names - the clauses the calling check reports or treats as harness clauses.  A run ended by
+    clauses outside `own` only (a sibling property's) has not been judged to its end for the caller: validation is repeated
+    with those clauses skipped (at most three times), so that each property's check decides its own clauses on every run."""
     name = name or module
+    res = _tlc_trace_once(module, trace_path, timeout, name, xmx, deque, cfg, skip)
+    if own is not None:
+        skipped = set(skip)
+        for _ in range(3):
+            foreign = set()
+            for b in res.get('bad', []):
+                if not any(own(c) for c in b.get('clauses', [])):
+                    foreign |= set(b.get('clauses', []))
+            foreign -= skipped
+            if not foreign:
+                break
+            skipped |= foreign
+            res = _tlc_trace_once(module, trace_path, timeout, name, xmx, deque, cfg, sorted(skipped))
+        res['skipped_sibling_clauses'] = sorted(skipped)
+    return res
+
+
+def _tlc_trace_once(module, trace_path, timeout, name, xmx, deque, cfg, skip):
     meta = workdir('tv_' + name)
+    skipfile = os.path.join(workdir('skip_' + name), 'skip.ndjson')
+    with open(skipfile, 'w') as f:
+        for c in skip:
+            f.write(json.dumps({'c': c}) + '\n')
     args = ['-workers', '1', '-metadir', meta, '-noGenerateSpecTE', '-config', cfg or (module + '.cfg'), module + '.tla']
-    rc, out, wall = _tlc(args, SPEC, env_extra={'TRACE': trace_path}, timeout=timeout, xmx=xmx, deque=deque)
+    rc, out, wall = _tlc(args, SPEC, env_extra={'TRACE': trace_path, 'SKIPFILE': skipfile}, timeout=timeout, xmx=xmx, deque=deque)
     shutil.rmtree(meta, ignore_errors=True)
     res = None
     for line in out.splitlines():
